@@ -8,10 +8,12 @@
 
    commands
      load <hex json>                      -> OK <bufsize> <verify code>          | PARSEERR <code> <pos>
+     loaddeep <depth> <ntv>               -> same, a table chain built with the builder API (deeper than the parser / verifier accept)
      ref <flags> <indent>                 -> R <ret> <err> <over> <hang> <ntr> <trh> <hex text>   (growing buffer, default size; becomes the reference)
      reffile <flags> <indent>             -> same through the file printer (used while base64 cannot be printed to buffers)
      dyn <flags> <indent> <size> [k]      -> <ret>:<err>:<over>:<hang>:<ok>:<ntr>:<trh> <block sizes asked of realloc, comma separated, - if none>
                                              (k: the k-th realloc call fails and is listed as 0)
+     dynsweep <flags> <indent> <from> <to> -> <record>=<block sizes> for every initial size of the growing buffer
      file <flags> <indent>                -> <ret>:<err>:<over>:<hang>:<ok>:<ntr>:<trh>
      sweep <flags> <indent> <from> <to>   -> one such record per fixed buffer size, S = skipped after three hangs
      trace <mode f|d|l> <flags> <indent> <size> -> the p - pflush values seen by the flush callback
@@ -252,6 +254,47 @@ static int load_json(const char *json, size_t len)
     return 0;
 }
 
+/* a table chain built bottom-up with the generated builder (no parser, no nesting limit): depth tables "t" around an
+   innermost table that holds i = 1 or, when ntv > 0, a table vector tv of ntv tables {i:1}.  Buffers deeper than the
+   verifier's limit are UNVERIFIED input: they exercise the printer's own deep_recursion path. */
+static int load_deep(int depth, int ntv)
+{
+    flatcc_builder_t B; ps_T_ref_t ref; int i;
+    if (g_fb) { flatcc_builder_aligned_free(g_fb); g_fb = 0; }
+    flatcc_builder_init(&B);
+    if (flatcc_builder_start_buffer(&B, 0, 0, 0)) goto fail;
+    if (ntv > 0) {
+        ps_T_vec_ref_t v;
+        if (ps_T_vec_start(&B)) goto fail;
+        for (i = 0; i < ntv; ++i) {
+            ps_T_ref_t e;
+            if (ps_T_start(&B) || ps_T_i_add(&B, 1)) goto fail;
+            e = ps_T_end(&B);
+            if (!e || !ps_T_vec_push(&B, e)) goto fail;
+        }
+        v = ps_T_vec_end(&B);
+        if (!v || ps_T_start(&B) || ps_T_tv_add(&B, v)) goto fail;
+        ref = ps_T_end(&B);
+    } else {
+        if (ps_T_start(&B) || ps_T_i_add(&B, 1)) goto fail;
+        ref = ps_T_end(&B);
+    }
+    for (i = 0; i < depth && ref; ++i) {
+        if (ps_T_start(&B) || ps_T_t_add(&B, ref)) goto fail;
+        ref = ps_T_end(&B);
+    }
+    if (!ref || !flatcc_builder_end_buffer(&B, ref)) goto fail;
+    g_fb = flatcc_builder_finalize_aligned_buffer(&B, &g_fbsz);
+    flatcc_builder_clear(&B);
+    if (!g_fb) { printf("PARSEERR -1 0\n"); return -1; }
+    printf("OK %lu %d\n", (unsigned long)g_fbsz, ps_T_verify_as_root(g_fb, g_fbsz));
+    return 0;
+fail:
+    flatcc_builder_clear(&B);
+    printf("PARSEERR -2 0\n");
+    return -1;
+}
+
 int main(void)
 {
     char *line, *t[8]; int n;
@@ -265,6 +308,8 @@ int main(void)
         if (n == 0) { printf("BAD\n"); fflush(stdout); continue; }
         if (!strcmp(t[0], "load") && n == 2) {
             uint8_t *p; size_t len = hx_decode(t[1], &p); load_json((const char *)p, len); free(p);
+        } else if (!strcmp(t[0], "loaddeep") && n == 3) {
+            load_deep(atoi(t[1]), atoi(t[2]));
         } else if (!strcmp(t[0], "timeout") && n == 2) {
             g_timeout_ms = atol(t[1]); printf("OK\n");
         } else if (!g_fb && strcmp(t[0], "fmt") && strcmp(t[0], "asan")) {
@@ -285,6 +330,20 @@ int main(void)
             put_res(&r); printf(" ");
             for (i = 0; i < nr && i < 256; ++i) printf("%s%lu", i ? "," : "", (unsigned long)g_rsz[i]);
             if (nr == 0) printf("-");
+            printf("\n");
+        } else if (!strcmp(t[0], "dynsweep") && n == 5) {
+            /* every initial size a..b of the growing buffer: record=block sizes asked of realloc */
+            long a = atol(t[3]), b = atol(t[4]), sz; int hangs = 0, i, nr;
+            for (sz = a; sz <= b; ++sz) {
+                struct res r;
+                if (sz > a) printf(" ");
+                if (hangs >= 3) { printf("S"); continue; }
+                print_dyn((size_t)sz, atoi(t[1]), atoi(t[2]), &r, 0, 0); nr = g_nrs;
+                put_res(&r); printf("=");
+                for (i = 0; i < nr && i < 256; ++i) printf("%s%lu", i ? "," : "", (unsigned long)g_rsz[i]);
+                if (nr == 0) printf("-");
+                hangs += r.hang;
+            }
             printf("\n");
         } else if (!strcmp(t[0], "file") && n == 3) {
             struct res r; print_file(atoi(t[1]), atoi(t[2]), &r, 0); put_res(&r); printf("\n");
